@@ -37,7 +37,7 @@ CHECKS = [
     {"id": "C17", "engine": "kani+verus", "level": "proof", "design_ref": "DESIGN.md 2/C17, 0A.1",
      "technique": "panic, unwrap, index, division and callee-precondition side obligations of the compiler functions under contract (Kani checks, Verus preconditions)",
      "text": "Narrow: absence of panics in the compiler functions that the other units put under contract, under their call-site preconditions. Whole-compiler panic freedom is not claimed.",
-     "note": "Known finding D9 (storage key overflow) is reported as KNOWN-FINDING. Everything else in sway-core is unverified."},
+     "note": "Known findings D5 (u256 match literal), D9 (storage key overflow), D14 (array size overflow) and D18 (arrays in storage) are reported as KNOWN-FINDING lines. Everything else in sway-core is unverified."},
     {"id": "C21", "engine": "kani", "level": "other", "design_ref": "DESIGN.md 2/C21, 0A.1",
      "technique": "Kani bounded harnesses on the verbatim parse_pkg_dep_line over concrete-length lines with symbolic content",
      "text": "Bounded stand-in: the lock-file dependency-line parser neither panics nor indexes out of range on any line of up to 4 bytes over the delimiter alphabet. The five source parsers were repaired (D6) on the strength of real-code demonstrations; they are not under a harness (format!/heap strings).",
